@@ -272,9 +272,6 @@ def run(ctx):
                 lhs = "%s[%s]" % (p, s1)
                 kinds = k1
             # size of the addressed block according to the model (if the index is valid)
-            def blk():
-                key = eval("(lambda *k: k)(%s)" % (s1 if not two else s1 + ", " + s2), dict(ls.ref)) if False else None
-                return key
             kk, vv = R.evaluate(lambda: r._resolve(eval("_K[%s]" % (s1 if not two else s1 + ", " + s2),
                                                          dict(ls.ref, _K=_KeyGrab()))))
             if kk == "value":
